@@ -105,6 +105,27 @@ theorem C01_overlay {content : Bytes → Bytes} {lower upper : Impl} (Rl : Refin
       RefMap.run ((union (Ru.abs s.2.1) (Rl.abs s.1)).filter (fun p => !has s.2.2 p.1)) ops :=
   (overlayRefines Rl Ru).run_eq s hs ops hops
 
+/-- an overlay put on top of a store that already holds blobs (any history `seeds` of the lower
+store alone) behaves as the reference map that starts with exactly those blobs -/
+theorem C01_overlay_over_populated_lower {content : Bytes → Bytes} {lower upper : Impl}
+    (Rl : Refines content lower) (Ru : Refines content upper) (seeds ops : List Op)
+    (hseeds : ∀ op ∈ seeds, op.WK content) (hops : ∀ op ∈ ops, op.WK content) :
+    (overlayImpl lower upper).run (lower.runState lower.init seeds, upper.init, []) ops =
+      RefMap.run (RefMap.runState [] seeds) ops := by
+  obtain ⟨hi, ha⟩ := Rl.reach lower.init Rl.init_inv seeds hseeds
+  have h := C01_overlay Rl Ru (lower.runState lower.init seeds, upper.init, [])
+    ⟨hi, Ru.init_inv, kasc_nil⟩ ops hops
+  rw [h]
+  congr 1
+  simp only [ha, Rl.init_abs, Ru.init_abs]
+  have hg := (Rl.reach lower.init Rl.init_inv seeds hseeds).1
+  have hgood := Rl.good _ hg
+  rw [ha, Rl.init_abs] at hgood
+  apply SMap.ext (kasc_filter _ (kasc_union _ hgood.1)) hgood.1
+  intro k
+  rw [get_filter_key (fun x => !has ([] : SMap Unit) x) (kasc_union _ hgood.1)]
+  simp [has, SMap.get, get_union]
+
 /-- a three-level nesting satisfies the hypotheses (non-vacuity) -/
 example : (Cfg.overlay (.shard2 .mem (.ns .mem)) (.proxy (.cond2 .mem .mem) (.memCache 100) 50)).WF = true := by decide
 
